@@ -97,6 +97,7 @@ pub broadcast axiom fn slice_len_bound(s: &[u8])
     ensures #[trigger] s@.len() <= isize::MAX;
 
 //@item iroh-dns/src/pkarr.rs struct Timestamp pubfields derive=Clone,Copy
+//@include shims/timestamp_cmp.rs
 impl Timestamp {
 //@fn iroh-dns/src/pkarr.rs Timestamp::from_micros ret=r
 //@| ensures r.0 == micros
@@ -240,9 +241,6 @@ impl SignedPacket {
 //@fn iroh-dns/src/pkarr.rs SignedPacket::more_recent_than props=C37 ret=r
 //@| requires self.wf(), other.wf()
 //@| ensures r == newer(*self, *other)
-//@rwx R11 2
-//@- self\.timestamp\(\)\s*(==|!=|>=|<=|>|<)\s*other\.timestamp\(\)
-//@+ self.timestamp().0 \1 other.timestamp().0
 //@rwx R11 *
 //@- self\.encoded_packet\(\)\s*>\s*other\.encoded_packet\(\)
 //@+ slice_gt(self.encoded_packet(), other.encoded_packet())
@@ -306,6 +304,23 @@ pub proof fn lemma_newer_strict_total_order(a: SignedPacket, b: SignedPacket, c:
     lemma_lex_total(a.payload(), b.payload());
     if newer(a, b) && newer(b, c) {
         if a.ts() == b.ts() && b.ts() == c.ts() { lemma_lex_transitive(a.payload(), b.payload(), c.payload()); }
+    }
+}
+// negative transitivity (strict weak order): what the store's "keep unless the stored one is more recent" rule needs
+pub proof fn lemma_newer_negatively_transitive(a: SignedPacket, b: SignedPacket, c: SignedPacket)  // [C37]
+    requires !newer(a, b), !newer(b, c)
+    ensures !newer(a, c)
+{
+    lemma_lex_total(a.payload(), b.payload());
+    lemma_lex_total(b.payload(), c.payload());
+    lemma_lex_total(a.payload(), c.payload());
+    if newer(a, c) {
+        if a.ts() == c.ts() {
+            // then a.ts == b.ts == c.ts (else one of the hypotheses fails) and payloads: a > c, !(a > b), !(b > c)
+            if a.payload() != b.payload() && b.payload() != c.payload() {
+                lemma_lex_transitive(c.payload(), b.payload(), a.payload());
+            }
+        }
     }
 }
 // the maximum of a publish history is unique up to (timestamp, payload): keeping `newer` ones keeps the maximum
